@@ -232,6 +232,24 @@ theorem rewriteString_words_counterexample :
       refinesWords (words "aaaaaaaaaaaa,bbbbbbbbbbbb cc".toList) (commentWords "// ".toList r) = true :=
   ⟨"aaaaaaaaaaaa,\n// bbbbbbbbbbbb cc".toList, by decide +kernel, by decide +kernel, by decide +kernel⟩
 
+/-- **One step of `break_string` keeps the list of words** (`_partial`: `trim_end`, and the text offers no
+punctuation to break after — every boundary grapheme of the text is white space): the words of the line it
+returns followed by the words of what is left are the words of its input.  `rewriteString_words_counterexample`
+shows that the hypothesis is needed; `rewriteString_payload` is what holds without it. -/
+theorem breakString_words_partial (maxWidth : Nat) (lineEnd input line : List Char) (len : Nat)
+    (hnp : noPunctBreakB input = true) (h : breakString maxWidth true lineEnd input = .lineEnd line len) :
+    words line ++ words (input.drop len) = words input := by
+  have hs := breakString_step maxWidth true lineEnd input
+  rw [h] at hs
+  exact hs.words (noPunctBreak_of_B hnp)
+
+/-- non-vacuity: the unit test `big_whitespace` (a run of blanks at the break is dropped, no word is) -/
+example : noPunctBreakB "Neque in sem            Pellentesque tellus augue".toList = true ∧
+    breakString 20 true [] "Neque in sem            Pellentesque tellus augue".toList
+      = .lineEnd "Neque in sem".toList 24 ∧
+    words "Neque in sem".toList ++ words ("Neque in sem            Pellentesque tellus augue".toList.drop 24)
+      = words "Neque in sem            Pellentesque tellus augue".toList := by decide
+
 /-! ## C02 / C07: the lines fit -/
 
 /-- **Every line `break_string` returns fits into `max_width`, its trailing white space apart — or the
